@@ -25,6 +25,10 @@ def fresh(tag):
     with open(os.path.join(arena, "sentinel", "victim"), "wb") as f:
         f.write(b"SENTINEL")
     os.chmod(os.path.join(arena, "sentinel", "victim"), 0o600)
+    # a sibling that carries the configured directory's OWN name plus the temporary extension: what a name that denotes
+    # the directory itself ("", ".", "x/..", "./") would open, truncate and finally unlink
+    with open(os.path.join(arena, "target.partial"), "wb") as f:
+        f.write(b"SIBLING-PARTIAL")
     return arena, os.path.join(arena, "target"), os.path.join(arena, "sentinel")
 
 
@@ -468,3 +472,10 @@ def write_incident(fn, msg, compress=False):
     flogfile.serialize_raw_header(f, {"type": "incident", "trigger": {"message": msg, "num": 1, "level": 30}})
     flogfile.serialize_wrapper(f, {"num": 1, "message": msg, "level": 30, "time": 1.0}, from_="tubid", rx_time=2.0)
     f.close()
+
+
+def list_incident_names(pub, since):
+    try:
+        return "ok", [(n, p) for (n, p) in pub.list_incident_names(since)]
+    except BaseException as e:
+        return "raise:" + type(e).__name__, []
